@@ -2,7 +2,13 @@
 From Coq Require Import List Arith.
 From PG Require Import Base.ListSet Graph.MGraph Graph.MSep Graph.Walks C12.Model C12.Enum C12.Spec C12.Proofs C12.CriterionFwd
   C12.CriterionBwd C12.Bounded_3 C12.Bounded_4.
+From PG Require Base.Sx C12.Run.
 Import ListNotations.
+
+(* the extracted run_case (Cxx/Run.v) is the model's run_case on the model's modes; its extra modes expose helper functions *)
+Theorem extracted_run_case_is_model : forall s, Base.Sx.sx_nat (Base.Sx.sx_nth s 0) <> 3 -> C12.Run.run_case s = C12.Model.run_case s.
+Proof. exact C12.Run.run_case_model. Qed.
+Print Assumptions extracted_run_case_is_model.
 
 (* clause 1 (all graphs): adjacent in the moral graph <-> joined by an edge or by a path whose inner nodes are all colliders *)
 Theorem moral_adjacency : forall g a b, wf g -> a <> b -> In a (V g) -> In b (V g) ->
